@@ -89,9 +89,9 @@ fn edge_local<V: Full>(e: Edge, k: &Key<V, Local>, ks: &keys::KeySet) -> Result<
         }
         Edge::Pke => {
             let pair = &ks.pke[0];
-            let s = pk::seal::<V>(&keys::key_bytes(k), &pair.1.bytes).map_err(|e| crate::payload::err_kind(&e).to_string())?;
-            let b = pk::unseal::<V>(&s, &pair.0.bytes).map_err(|e| crate::payload::err_kind(&e).to_string())?;
-            Ok(keys::local::<V>(&b))
+            let s = k.clone().seal(&keys::key::<V, PkePublic>(&pair.1.bytes)).map_err(pe)?.to_string();
+            let p: paseto_core::paserk::SealedKey<V> = s.parse().map_err(pe)?;
+            p.unseal(&keys::key::<V, PkeSecret>(&pair.0.bytes)).map_err(pe)
         }
         _ => edge_sealing::<V, Local>(e, k, ks),
     }
@@ -129,51 +129,73 @@ fn edges_for(kk: KK, v1_quick: bool) -> Vec<Edge> {
     e
 }
 
-/// deterministic behavioural fingerprint of a key (what "identical behaviour" is compared on)
-fn behaviour<V: Full>(kk: KK, bytes: &[u8], origin_tokens: &OriginTokens) -> Result<Vec<u8>, String> {
-    let mut out = Vec::new();
-    let e = |x: paseto_core::PasetoError| crate::payload::err_kind(&x).to_string();
-    match kk {
-        KK::Local => {
-            let k = keys::local::<V>(bytes);
-            out.extend_from_slice(k.id().to_string().as_bytes());
-            let t = ops::enc::<V>(&k, b"behaviour", Some(b"f"), b"", &Nonce::Fixed(vec![7; V::nonce_len()])).map_err(e)?;
+/// deterministic behavioural fingerprint of a key object (what "identical behaviour" is compared on); taken on
+/// the very object an edge produced, not on a re-parse of its bytes
+trait Behave<V: Full> {
+    fn behave(&self, ot: &OriginTokens) -> Result<Vec<u8>, String>;
+}
+fn pe(x: paseto_core::PasetoError) -> String {
+    crate::payload::err_kind(&x).to_string()
+}
+impl<V: Full> Behave<V> for Key<V, Local> {
+    fn behave(&self, ot: &OriginTokens) -> Result<Vec<u8>, String> {
+        let mut out = Vec::new();
+        out.extend_from_slice(self.id().to_string().as_bytes());
+        let t = ops::enc::<V>(self, b"behaviour", Some(b"f"), b"", &Nonce::Fixed(vec![7; V::nonce_len()])).map_err(pe)?;
+        out.extend_from_slice(t.as_bytes());
+        let (c, _) = ops::dec::<V>(self, &ot.local, b"").map_err(pe)?;
+        out.extend_from_slice(&c);
+        Ok(out)
+    }
+}
+impl<V: Full> Behave<V> for Key<V, Secret> {
+    fn behave(&self, ot: &OriginTokens) -> Result<Vec<u8>, String> {
+        let mut out = Vec::new();
+        out.extend_from_slice(self.id().to_string().as_bytes());
+        out.extend_from_slice(&keys::key_bytes(&self.public_key()));
+        let t = ops::sign::<V>(self, b"behaviour", Some(b"f"), b"", &Nonce::Lib).map_err(pe)?;
+        if V::DET_SIG {
             out.extend_from_slice(t.as_bytes());
-            let (c, _) = ops::dec::<V>(&k, &origin_tokens.local, b"").map_err(e)?;
-            out.extend_from_slice(&c);
         }
-        KK::Secret => {
-            let k = keys::secret::<V>(bytes);
-            out.extend_from_slice(k.id().to_string().as_bytes());
-            out.extend_from_slice(&keys::key_bytes(&k.public_key()));
-            let t = ops::sign::<V>(&k, b"behaviour", Some(b"f"), b"", &Nonce::Lib).map_err(e)?;
-            if V::DET_SIG {
-                out.extend_from_slice(t.as_bytes());
-            }
-            // whatever this key signs verifies under the origin's public key
-            let opk = keys::public::<V>(&origin_tokens.public_key);
-            let (c, _) = ops::verify::<V>(&opk, &t, b"").map_err(|x| format!("signature by the reached key does not verify under the origin's public key: {}", e(x)))?;
-            out.extend_from_slice(&c);
-        }
-        KK::Public => {
-            let k = keys::public::<V>(bytes);
-            out.extend_from_slice(k.id().to_string().as_bytes());
-            out.extend_from_slice(k.to_string().as_bytes());
-            let (c, _) = ops::verify::<V>(&k, &origin_tokens.signed, b"").map_err(e)?;
-            out.extend_from_slice(&c);
-        }
-        KK::PkePublic => {
-            let k = keys::key::<V, PkePublic>(bytes);
-            out.extend_from_slice(k.id().to_string().as_bytes());
-        }
-        KK::PkeSecret => {
-            let k = keys::key::<V, PkeSecret>(bytes);
-            out.extend_from_slice(k.id().to_string().as_bytes());
-            let b = pk::unseal::<V>(&origin_tokens.sealed, bytes).map_err(e)?;
+        // whatever this key signs verifies under the origin's public key
+        let opk = keys::public::<V>(&ot.public_key);
+        let (c, _) = ops::verify::<V>(&opk, &t, b"").map_err(|x| format!("signature by the reached key does not verify under the origin's public key: {}", pe(x)))?;
+        out.extend_from_slice(&c);
+        Ok(out)
+    }
+}
+impl<V: Full> Behave<V> for Key<V, Public> {
+    fn behave(&self, ot: &OriginTokens) -> Result<Vec<u8>, String> {
+        let mut out = Vec::new();
+        out.extend_from_slice(self.id().to_string().as_bytes());
+        out.extend_from_slice(self.to_string().as_bytes());
+        let (c, _) = ops::verify::<V>(self, &ot.signed, b"").map_err(pe)?;
+        out.extend_from_slice(&c);
+        Ok(out)
+    }
+}
+impl<V: Full> Behave<V> for Key<V, PkePublic> {
+    fn behave(&self, ot: &OriginTokens) -> Result<Vec<u8>, String> {
+        let mut out = Vec::new();
+        out.extend_from_slice(self.id().to_string().as_bytes());
+        // a key sealed to the reached object opens under the origin's secret key
+        if !ot.pke_secret.is_empty() {
+            let lk = keys::local::<V>(&ot.sealed_key);
+            let s = lk.seal(self).map_err(pe)?.to_string();
+            let b = pk::unseal::<V>(&s, &ot.pke_secret).map_err(|x| format!("a key sealed to the reached key does not open under the origin's secret key: {}", pe(x)))?;
             out.extend_from_slice(&b);
         }
+        Ok(out)
     }
-    Ok(out)
+}
+impl<V: Full> Behave<V> for Key<V, PkeSecret> {
+    fn behave(&self, ot: &OriginTokens) -> Result<Vec<u8>, String> {
+        let mut out = Vec::new();
+        out.extend_from_slice(self.id().to_string().as_bytes());
+        let s: paseto_core::paserk::SealedKey<V> = ot.sealed.parse().map_err(pe)?;
+        out.extend_from_slice(&keys::key_bytes(&s.unseal(self).map_err(pe)?));
+        Ok(out)
+    }
 }
 
 struct OriginTokens {
@@ -181,16 +203,31 @@ struct OriginTokens {
     signed: String,
     public_key: Vec<u8>,
     sealed: String,
+    /// for PKE public origins: the matching secret key and the local key that gets sealed
+    pke_secret: Vec<u8>,
+    sealed_key: Vec<u8>,
 }
 
-fn apply<V: Full>(kk: KK, e: Edge, bytes: &[u8], ks: &keys::KeySet) -> Result<Vec<u8>, String> {
-    Ok(match kk {
-        KK::Local => keys::key_bytes(&edge_local::<V>(e, &keys::local::<V>(bytes), ks)?),
-        KK::Secret => keys::key_bytes(&edge_sealing::<V, Secret>(e, &keys::secret::<V>(bytes), ks)?),
-        KK::Public => keys::key_bytes(&edge_generic::<V, Public>(e, &keys::public::<V>(bytes))?),
-        KK::PkePublic => keys::key_bytes(&edge_generic::<V, PkePublic>(e, &keys::key::<V, PkePublic>(bytes))?),
-        KK::PkeSecret => keys::key_bytes(&edge_generic::<V, PkeSecret>(e, &keys::key::<V, PkeSecret>(bytes))?),
-    })
+/// re-executes a history of edges on live key objects, starting from the origin parsed from its bytes;
+/// returns (bytes, behaviour) of the object the last edge produced
+fn walk<V: Full>(kk: KK, hist: &[Edge], origin: &[u8], ks: &keys::KeySet, ot: &OriginTokens) -> Result<(Vec<u8>, Result<Vec<u8>, String>), String> {
+    fn go<V: Full, K: KeyType>(mut k: Key<V, K>, hist: &[Edge], step: impl Fn(Edge, &Key<V, K>) -> Result<Key<V, K>, String>, ot: &OriginTokens) -> Result<(Vec<u8>, Result<Vec<u8>, String>), String>
+    where
+        V: HasKey<K>,
+        Key<V, K>: Behave<V>,
+    {
+        for e in hist {
+            k = step(*e, &k)?;
+        }
+        Ok((keys::key_bytes(&k), k.behave(ot)))
+    }
+    match kk {
+        KK::Local => go(keys::local::<V>(origin), hist, |e, k| edge_local::<V>(e, k, ks), ot),
+        KK::Secret => go(keys::secret::<V>(origin), hist, |e, k| edge_sealing::<V, Secret>(e, k, ks), ot),
+        KK::Public => go(keys::public::<V>(origin), hist, |e, k| edge_generic::<V, Public>(e, k), ot),
+        KK::PkePublic => go(keys::key::<V, PkePublic>(origin), hist, |e, k| edge_generic::<V, PkePublic>(e, k), ot),
+        KK::PkeSecret => go(keys::key::<V, PkeSecret>(origin), hist, |e, k| edge_generic::<V, PkeSecret>(e, k), ot),
+    }
 }
 
 fn graph<V: Full>(prop: &mut Property, ctx: &Ctx) {
@@ -217,7 +254,7 @@ fn graph<V: Full>(prop: &mut Property, ctx: &Ctx) {
         Sub::new(
             format!("{name}/graph"),
             n,
-            format!("BFS from every origin key ({n} origins: local, secret, public, PKE) over every edge sequence up to depth {depth} of the representation graph (clone, KeyText try_into, PASERK string parse, raw bytes, KeyText string, serde, From<[u8;32]>, PIE, PBKW, PKE); state = (kind, key bytes), invariant: bytes and behaviour equal the origin's in every state"),
+            format!("BFS from every origin key ({n} origins: local, secret, public, PKE) over every edge sequence up to depth {depth} of the representation graph (clone, KeyText try_into, PASERK string parse, raw bytes, KeyText string, serde, From<[u8;32]>, PIE, PBKW, PKE); every history is re-executed on live key objects from the origin; invariant: the bytes of the object reached equal the origin's and the object itself (not a re-parse of its bytes) behaves like the origin: same id, same fixed-nonce token, same deterministic signature, opens / verifies the origin's artefacts"),
             move |idx, describe| {
                 let (kk, origin) = &origins[idx as usize];
                 let kk = *kk;
@@ -231,7 +268,7 @@ fn graph<V: Full>(prop: &mut Property, ctx: &Ctx) {
                     let lk = keys::local::<V>(&ks.locals[0].bytes);
                     let r = subject(|| -> Result<OriginTokens, String> {
                         let e = |x: paseto_core::PasetoError| crate::payload::err_kind(&x).to_string();
-                        let mut t = OriginTokens { local: String::new(), signed: String::new(), public_key: Vec::new(), sealed: String::new() };
+                        let mut t = OriginTokens { local: String::new(), signed: String::new(), public_key: Vec::new(), sealed: String::new(), pke_secret: Vec::new(), sealed_key: keys::key_bytes(&lk) };
                         match kk {
                             KK::Local => t.local = ops::enc::<V>(&keys::local::<V>(&origin.bytes), b"origin", Some(b"f"), b"", &Nonce::Fixed(vec![9; V::nonce_len()])).map_err(e)?,
                             KK::Secret => t.public_key = keys::key_bytes(&keys::secret::<V>(&origin.bytes).public_key()),
@@ -244,7 +281,10 @@ fn graph<V: Full>(prop: &mut Property, ctx: &Ctx) {
                                 let pair = ks.pke.iter().find(|p| p.0.bytes == origin.bytes).expect("pke pair");
                                 t.sealed = pk::seal::<V>(&keys::key_bytes(&lk), &pair.1.bytes).map_err(e)?;
                             }
-                            KK::PkePublic => {}
+                            KK::PkePublic => {
+                                let pair = ks.pke.iter().find(|p| p.1.bytes == origin.bytes).expect("pke pair");
+                                t.pke_secret = pair.0.bytes.clone();
+                            }
                         }
                         Ok(t)
                     });
@@ -256,7 +296,7 @@ fn graph<V: Full>(prop: &mut Property, ctx: &Ctx) {
                         }
                     }
                 };
-                let b0 = match subject(|| behaviour::<V>(kk, &origin.bytes, &ot)) {
+                let b0 = match subject(|| walk::<V>(kk, &[], &origin.bytes, &ks, &ot).and_then(|(_, b)| b)) {
                     Ok(Ok(b)) => b,
                     other => {
                         o.violate(format!("{base}/origin-behaviour"), format!("origin key misbehaves: {other:?}"), json!({"key": hexs(&origin.bytes)}));
@@ -286,15 +326,16 @@ fn graph<V: Full>(prop: &mut Property, ctx: &Ctx) {
                             o.count("transitions", 1);
                             let mut h2 = hist.clone();
                             h2.push(*e);
-                            match subject(|| apply::<V>(kk, *e, bytes, &ks)) {
-                                Ok(Ok(nb)) => {
+                            let _ = bytes;
+                            match subject(|| walk::<V>(kk, &h2, &origin.bytes, &ks, &ot)) {
+                                Ok(Ok((nb, beh))) => {
                                     if nb != origin.bytes {
                                         o.violate(format!("{base}/{e:?}/bytes-changed"), format!("history {h2:?}: key bytes changed"), json!({"origin": hexs(&origin.bytes), "got": hexs(&nb)}));
                                         continue;
                                     }
-                                    match subject(|| behaviour::<V>(kk, &nb, &ot)) {
-                                        Ok(Ok(b)) if b == b0 => o.class("equivalent"),
-                                        other => o.violate(format!("{base}/{e:?}/behaviour"), format!("history {h2:?}: key behaves differently from the origin: {:?}", other.map(|r| r.map(|b| b.len()))), json!({"origin": hexs(&origin.bytes)})),
+                                    match beh {
+                                        Ok(b) if b == b0 => o.class("equivalent"),
+                                        other => o.violate(format!("{base}/{e:?}/behaviour"), format!("history {h2:?}: the key object reached behaves differently from the origin: {:?}", other.map(|b| b.len())), json!({"origin": hexs(&origin.bytes)})),
                                     }
                                     states.insert(nb.clone());
                                     next.push((h2, nb));
